@@ -23,7 +23,8 @@ from vverif.core import Result, Violation, HarnessError
 LEVEL = 'exploration'
 
 # ------------------------------------------------------------------ configuration pool
-# (password, [actions]); quick uses the first 6 lines, thorough all 9
+# (password, [actions]); quick uses the first 5 lines, thorough all 9.  Every performed shutdown costs an instance restart
+# (~5 s), which is why `none shutdown` and the extra spellings of the shutdown URL are left to the thorough tier.
 PASSWD_POOL = [
     ('secret', ['info']),
     ('disable', ['shutdown']),
@@ -47,19 +48,18 @@ NEEDS_PASSWORD = {'shutdown', 'config'}
 ACTIONS = ['info', 'menu', 'config', 'shutdown']
 
 # ------------------------------------------------------------------ request product
-URLS = ['info', 'menu', 'shutdown', 'config', 'unknown', 'info?x=1', 'INFO', 'in%66o', 'shutdown?x=1', 'SHUTDOWN',
-        'abs:info', 'abs:shutdown']          # abs: = absolute-form request target naming this Squid
+URLS_QUICK = ['info', 'menu', 'shutdown', 'config', 'unknown', 'info?x=1', 'INFO', 'in%66o', 'SHUTDOWN', 'abs:info']
+URLS_THOROUGH = URLS_QUICK + ['shutdown?x=1', 'abs:shutdown']      # abs: = absolute-form request target naming this Squid
+QUICK_POOL = 5
 CREDS = ['none', 'basic-secret', 'basic-other', 'basic-wrong', 'basic-prefix', 'basic-emptyuser-secret', 'basic-nocolon-secret',
          'userinfo-secret']
 SOURCES = ['127.0.0.1', '127.0.0.2']
 MANAGER_RE = re.compile(r'^[^:]+://[^/]+/squid-internal-mgr/', re.I)      # the documented default of `acl manager`
 
 
-def requests_of():
-    return [{'url': u, 'cred': c, 'src': s} for s in SOURCES for u in URLS for c in CREDS]
-
-
-REQUESTS = requests_of()
+def requests_of(tier):
+    urls = URLS_QUICK if tier == 'quick' else URLS_THOROUGH
+    return [{'url': u, 'cred': c, 'src': s} for s in SOURCES for u in urls for c in CREDS]
 
 
 def presented_password(cred):
@@ -164,7 +164,7 @@ def req_key(r):
 
 
 def config_space(tier):
-    pool = PASSWD_POOL[:6] if tier == 'quick' else PASSWD_POOL
+    pool = PASSWD_POOL[:QUICK_POOL] if tier == 'quick' else PASSWD_POOL
     lists = [[]] + [[a] for a in pool] + [[a, b] for a in pool for b in pool if a is not b]
     return [(l, h) for l in lists for h in ('H1', 'H2', 'H3')]
 
@@ -185,8 +185,16 @@ class MWorld:
 
     def start(self, cfg):
         self.drop()
-        self.sq = ls.Squid(self.ctx, self.name, self.pb, conf=conf_text(*cfg), default_acl=False)
-        self.sq.start()
+        for attempt in range(3):
+            self.sq = ls.Squid(self.ctx, self.name, self.pb, conf=conf_text(*cfg), default_acl=False)
+            try:
+                self.sq.start()
+                break
+            except HarnessError as e:
+                # on an overloaded machine the (real-time) 60 s start-up allowance of the engine can expire
+                self.sq.cleanup()
+                if attempt == 2 or 'not ready after' not in str(e):
+                    raise
         self.starts += 1
         self.cfg = cfg
         self.logpos = 0
@@ -338,9 +346,8 @@ def judge(cfg, req, ob):
     return 'performed:' + '+'.join(done), None
 
 
-def eval_config(w, cfg, reqs=None):
-    """Runs the request product under the loaded configuration.  Returns (transcript, bad [(req, text)], problems)."""
-    reqs = REQUESTS if reqs is None else reqs
+def eval_config(w, cfg, reqs):
+    """Runs the request product under the loaded configuration.  Returns (transcript, bad [(req, text)], classes, problems)."""
     obs = [None] * len(reqs)
     probs = []
     plain = [i for i, r in enumerate(reqs) if not names_shutdown(r)]
@@ -413,6 +420,8 @@ MAX_VIOLATIONS_PER_SHARD = 5
 def make_worker(ctx):
     t_end = ctx.t0 + ctx.deadline_s - 25
 
+    REQUESTS = requests_of(ctx.tier)
+
     def worker(shard, items):
         res = {'configs': 0, 'evaluations': 0, 'nontrivial': 0, 'classes': {}, 'violations': [], 'crashes': [], 'deadline_hit': False,
                'starts': 0, 'reconfigs': 0, 'kicks': 0, 'samples': [], 'det_checked': 0, 'performed_by_action': {},
@@ -423,7 +432,7 @@ def make_worker(ctx):
             w0 = MWorld(ctx, shard, name='d%d' % shard)
             try:
                 w0.start(items[i])
-                det[i] = eval_config(w0, items[i])[0]
+                det[i] = eval_config(w0, items[i], REQUESTS)[0]
             finally:
                 w0.stop()
                 res['starts'] += w0.starts
@@ -441,7 +450,7 @@ def make_worker(ctx):
                 else:
                     w.reconfigure(cfg)
                 since += 1
-                tr, bad, classes, probs = eval_config(w, cfg)
+                tr, bad, classes, probs = eval_config(w, cfg, REQUESTS)
                 res['configs'] += 1
                 res['evaluations'] += len(REQUESTS)
                 if n in det:
@@ -533,9 +542,9 @@ def run(ctx):
     configs = tot('configs')
     cov = {'evaluations': tot('evaluations'), 'distinct_nontrivial': tot('nontrivial'), 'rule': RULE, 'samples': samples[:6],
            'exhaustive': (not deadline_hit) and configs == len(space), 'configurations': configs, 'configurations_total': len(space),
-           'requests_per_configuration': len(REQUESTS),
+           'requests_per_configuration': len(requests_of(ctx.tier)),
            'subspace': 'all lists of <= 2 distinct cachemgr_passwd lines (ordered) from a pool of %d x 3 http_access sections x %d URL forms x %d '
-                       'credential forms x 2 client addresses' % (6 if ctx.quick else len(PASSWD_POOL), len(URLS), len(CREDS)),
+                       'credential forms x 2 client addresses' % (QUICK_POOL if ctx.quick else len(PASSWD_POOL), len(URLS_QUICK if ctx.quick else URLS_THOROUGH), len(CREDS)),
            'outcome_classes': classes, 'reports_delivered': perf, 'shutdowns_performed': tot('shutdowns'),
            'refused_401': tot('refused_401'), 'refused_403': tot('refused_403'), 'instance_starts': tot('starts'),
            'reconfigurations': tot('reconfigs'), 'start_vs_reconfigure_crosschecks': tot('det_checked'), 'kicks': tot('kicks')}
@@ -555,7 +564,7 @@ def replay(ctx, data):
         w = MWorld(ctx, 0)
         try:
             w.start(cfg)
-            tr, bad, classes, probs = eval_config(w, cfg)
+            tr, bad, classes, probs = eval_config(w, cfg, requests_of('thorough'))
             print(probs)
             if probs:
                 vio.append(Violation('crash:[%s]' % cfg_key(cfg), '; '.join(probs)[:2500], data))
